@@ -383,3 +383,258 @@ Section Tok.
     destruct Hwf as (_ & Hp & Hne & _). rewrite all_indices_length in E by auto. cbn in E. lia.
   Qed.
 End Tok.
+
+(* ------------------------------------------------------------------ multicolumn form: stream structure (every carrier) *)
+Section Multicol.
+  Context {T : Type} (O : NumOps T).
+  Notation tk := (tok T).
+
+  Fixpoint header_toks (lower width : list T) (nx : list Z) (per : list bool) : list tk :=
+    match lower, width, nx, per with
+    | l :: ls, w :: ws, n :: ns, p :: ps =>
+        THash :: TNum l :: TNum w :: TInt n :: TInt (b2z p) :: header_toks ls ws ns ps
+    | _, _, _, _ => []
+    end.
+  Fixpoint header_vals (lower width : list T) (nx : list Z) (per : list bool) : list (T * T * Z * Z) :=
+    match lower, width, nx, per with
+    | l :: ls, w :: ws, n :: ns, p :: ps => (l, w, n, b2z p) :: header_vals ls ws ns ps
+    | _, _, _, _ => []
+    end.
+
+  Lemma strip_header_lines lower width nx per :
+    strip (header_lines lower width nx per) = header_toks lower width nx per.
+  Proof.
+    revert width nx per; induction lower as [|l ls IH]; intros [|w ws] [|n ns] [|p ps]; try reflexivity.
+    cbn [header_lines header_toks]. unfold strip in *. cbn [filter is_nl negb]. rewrite IH. reflexivity.
+  Qed.
+
+  Lemma read_header_ok : forall n lower width nx per r,
+    length lower = n -> length width = n -> length nx = n -> length per = n ->
+    read_header O n (header_toks lower width nx per ++ r) = Some (header_vals lower width nx per, r).
+  Proof.
+    induction n as [|n IH]; intros [|l ls] [|w ws] [|k ks] [|p ps] r H1 H2 H3 H4; try discriminate; [reflexivity|].
+    cbn [header_toks header_vals app read_header tok_num]. cbn [length] in *.
+    rewrite IH by lia. reflexivity.
+  Qed.
+
+  Lemma header_toks_length : forall n lower width nx per,
+    length lower = n -> length width = n -> length nx = n -> length per = n ->
+    length (header_toks lower width nx per) = 5 * n.
+  Proof.
+    induction n as [|n IH]; intros [|l ls] [|w ws] [|k ks] [|p ps] H1 H2 H3 H4; try discriminate; [reflexivity|].
+    cbn [header_toks length] in *. rewrite (IH ls ws ks ps) by lia. lia.
+  Qed.
+
+  Lemma read_header_len : forall n s h r, read_header O n s = Some (h, r) ->
+    length s = 5 * n + length r /\ length h = n.
+  Proof.
+    induction n as [|n IH]; intros s h r H; cbn [read_header] in H.
+    - injection H as <- <-. cbn. lia.
+    - destruct s as [|[x|z| | |k| | |] s]; try discriminate.
+      destruct s as [|a s]; try discriminate. destruct s as [|b s]; try discriminate.
+      destruct s as [|[x|nxr| | |k| | |] s]; try discriminate.
+      destruct s as [|[x|pf| | |k| | |] s]; try discriminate.
+      destruct (tok_num O a); try discriminate. destruct (tok_num O b); try discriminate.
+      destruct (read_header O n s) as [[h' r']|] eqn:E; try discriminate.
+      injection H as <- <-. apply IH in E. cbn [length]. lia.
+  Qed.
+
+  Lemma bin_centers_length : forall lower width ix,
+    length lower = length ix -> length width = length ix -> length (bin_centers O lower width ix) = length ix.
+  Proof.
+    induction lower as [|l ls IH]; intros [|w ws] [|i is_] H1 H2; try discriminate; [reflexivity|].
+    cbn [bin_centers length] in *. rewrite IH by lia. reflexivity.
+  Qed.
+
+  Definition geom_wf (g : grid T) : Prop :=
+    length (gr_lower g) = gnd g /\ length (gr_width g) = gnd g /\ length (gr_per g) = gnd g.
+  Definition same_geom (g0 g : grid T) : Prop :=
+    same_shape g0 g /\ gr_lower g0 = gr_lower g /\ gr_width g0 = gr_width g.
+
+  Definition multicol_rows (g : grid T) : list tk :=
+    flat_map (fun ix => map TNum (bin_centers O (gr_lower g) (gr_width g) ix) ++
+                        map TNum (slice (gr_data g) (Z.to_nat (address (gr_mult g) (gr_nx g) ix)) (gmult g)))
+             (all_indices (gr_nx g)).
+
+  Lemma strip_write_multicol g :
+    strip (write_multicol O g) =
+    THash :: TInt (Z.of_nat (gnd g)) :: header_toks (gr_lower g) (gr_width g) (gr_nx g) (gr_per g) ++ multicol_rows g.
+  Proof.
+    unfold write_multicol.
+    change (THash :: TInt (Z.of_nat (gnd g)) :: TNl :: ?l) with ([THash; TInt (Z.of_nat (gnd g)); TNl] ++ l).
+    rewrite !strip_app, strip_header_lines, strip_flat_map. cbn [strip filter is_nl negb app].
+    f_equal. f_equal. f_equal. unfold multicol_rows. apply flat_map_ext. intros ix.
+    unfold multicol_row, point_values, gaddr. rewrite !strip_app, !strip_nums.
+    destruct (last ix 1 =? 0)%Z; cbn; rewrite app_nil_r; reflexivity.
+  Qed.
+
+  Lemma in_range_length nx ix : in_range nx ix -> length ix = length nx.
+  Proof. intros H. induction H as [|i n is_ ns _ _ IH]; cbn [length]; auto. Qed.
+
+  (* reading the rows of a written file on the same-grid path *)
+  Lemma read_rows_ok add g g0 rest : grid_wf g -> geom_wf g -> grid_wf g0 -> same_geom g0 g ->
+    exists data',
+      read_points O (gnd g0) (gmult g0) add (gr_mult g0) (gr_nx g0) (all_indices (gr_nx g0))
+                  (multicol_rows g ++ rest) (gr_data g0) = Some (data', rest)
+      /\ length data' = length (gr_data g)
+      /\ forall j, j < length (gr_data g) ->
+           nth j data' (n0 O) = comb O add (nth j (gr_data g0) (n0 O)) (nth j (gr_data g) (n0 O)).
+  Proof.
+    intros Hwf (Hg1 & Hg2 & Hg3) Hwf0 ((Hsm & Hsn) & Hsl & Hsw).
+    pose proof (wf_data_length g Hwf) as Hl. pose proof (wf_data_length g0 Hwf0) as Hl0.
+    destruct Hwf as (Hm & Hp & Hne & _).
+    unfold gmult, gnd in *. rewrite Hsm, Hsn in *.
+    assert (Hlen : length (all_indices (gr_nx g)) = npoints (gr_nx g)) by (apply all_indices_length; auto).
+    assert (A1 : map (fun ix => Z.to_nat (address (gr_mult g) (gr_nx g) ix)) (all_indices (gr_nx g))
+                 = arange 0 (Z.to_nat (gr_mult g)) (length (all_indices (gr_nx g)))).
+    { rewrite Hlen. apply all_addresses; auto. }
+    assert (A2 : 0 + length (all_indices (gr_nx g)) * Z.to_nat (gr_mult g) <= length (gr_data g)) by (rewrite Hlen; lia).
+    assert (A3 : forall j, j < 0 -> nth j (gr_data g0) (n0 O) = comb O add (nth j (gr_data g0) (n0 O)) (nth j (gr_data g) (n0 O)))
+      by (intros j Hj; lia).
+    assert (A4 : forall ix, In ix (all_indices (gr_nx g)) ->
+                 length (bin_centers O (gr_lower g) (gr_width g) ix) = length (gr_nx g)).
+    { intros ix Hin. destruct (all_indices_spec (gr_nx g) Hp Hne) as [_ Hall].
+      rewrite Forall_forall in Hall. pose proof (in_range_length _ _ (Hall ix Hin)) as Hix.
+      rewrite bin_centers_length; lia. }
+    destruct (read_points_ok O (length (gr_nx g)) (Z.to_nat (gr_mult g)) add (gr_mult g) (gr_nx g) (gr_data g) (gr_data g0)
+                (bin_centers O (gr_lower g) (gr_width g))
+                (all_indices (gr_nx g)) 0 (gr_data g0) rest A1 ltac:(lia) ltac:(lia) A2 A4 A3
+                ltac:(intros; reflexivity)) as (data' & H1 & H2 & H3 & _).
+    exists data'. unfold multicol_rows, gmult. split; [exact H1|]. split; [exact H2|].
+    intros j Hj. apply H3. rewrite Hlen. lia.
+  Qed.
+End Multicol.
+
+(* ------------------------------------------------------------------ multicolumn form over R *)
+Section MulticolR.
+  Local Open Scope R_scope.
+  Notation tk := (tok R).
+
+  Lemma tol10_pos : 0 < tol10 Rops.
+  Proof. unfold tol10; cbn. apply Rdiv_lt_0_compat; [lra|]. apply IZR_lt. lia. Qed.
+
+  Lemma nabs_R x : nabs Rops x = Rabs x.
+  Proof.
+    unfold nabs; cbn. unfold Rltb. destruct (Rlt_dec x 0).
+    - rewrite Rabs_left; auto.
+    - rewrite Rabs_right; auto. lra.
+  Qed.
+
+  Lemma not_far_self x : nltb Rops (tol10 Rops) (nabs Rops (nsub Rops x x)) = false.
+  Proof.
+    rewrite nabs_R. cbn. replace (x - x) with 0 by ring. rewrite Rabs_R0.
+    apply Rltb_false. pose proof tol10_pos. lra.
+  Qed.
+
+  Lemma need_remap_self lower width nx per :
+    need_remap Rops (header_vals lower width nx per) lower width nx = false.
+  Proof.
+    revert width nx per; induction lower as [|l ls IH]; intros [|w ws] [|n ns] [|p ps]; try reflexivity.
+    cbn [header_vals need_remap]. rewrite !not_far_self, Z.eqb_refl, IH. reflexivity.
+  Qed.
+
+  (* read_multicol (write_multicol g) on a grid of the same geometry: every element receives the value
+     written for it (add = false), or has it added (add = true); nothing is left in the stream *)
+  Lemma multicol_read_written add (g g0 : grid R) :
+    grid_wf g -> geom_wf g -> grid_wf g0 -> same_geom g0 g ->
+    exists data',
+      read_multicol Rops add g0 (write_multicol Rops g) = Some (set_data g0 data', [])
+      /\ length data' = length (gr_data g)
+      /\ forall j, (j < length (gr_data g))%nat ->
+           nth j data' 0 = comb Rops add (nth j (gr_data g0) 0) (nth j (gr_data g) 0).
+  Proof.
+    intros Hwf Hg Hwf0 Hs.
+    destruct (read_rows_ok Rops add g g0 [] Hwf Hg Hwf0 Hs) as (data' & H1 & H2 & H3).
+    exists data'. split; [|split; auto].
+    unfold read_multicol. rewrite strip_write_multicol. unfold read_multicol_s.
+    destruct Hg as (Hg1 & Hg2 & Hg3). destruct Hs as ((Hsm & Hsn) & Hsl & Hsw).
+    assert (Hnd : gnd g0 = gnd g) by (unfold gnd; rewrite Hsn; reflexivity).
+    rewrite Hnd, Z.eqb_refl.
+    rewrite read_header_ok by (unfold gnd in *; lia).
+    rewrite Hsl, Hsw, Hsn, need_remap_self. rewrite <- Hsn, <- Hnd.
+    rewrite app_nil_r in H1. cbn in H1. rewrite H1. reflexivity.
+  Qed.
+
+  Lemma multicol_roundtrip (g g0 : grid R) :
+    grid_wf g -> geom_wf g -> grid_wf g0 -> same_geom g0 g ->
+    read_multicol Rops false g0 (write_multicol Rops g) = Some (set_data g0 (gr_data g), []).
+  Proof.
+    intros Hwf Hg Hwf0 Hs.
+    destruct (multicol_read_written false g g0 Hwf Hg Hwf0 Hs) as (data' & H1 & H2 & H3).
+    rewrite H1. f_equal. f_equal. f_equal.
+    apply (nth_eq_lists data' (gr_data g) 0); auto.
+    intros j Hj. rewrite H3 by lia. reflexivity.
+  Qed.
+
+  Lemma hv_proj : forall (lower width : list R) (nx : list Z) (per : list bool),
+    length lower = length nx -> length width = length nx -> length per = length nx ->
+    map (fun e => snd (fst e)) (header_vals lower width nx per) = nx /\
+    map (fun e => fst (fst (fst e))) (header_vals lower width nx per) = lower /\
+    map (fun e => snd (fst (fst e))) (header_vals lower width nx per) = width /\
+    map (fun e => negb (snd e =? 0)%Z) (header_vals lower width nx per) = per.
+  Proof.
+    induction lower as [|l ls IH]; intros [|w ws] [|n ns] [|p ps] H1 H2 H3; try discriminate; [repeat split|].
+    cbn [header_vals map fst snd length] in *.
+    destruct (IH ws ns ps) as (A & B & C & D); try lia. rewrite A, B, C, D.
+    repeat split. destruct p; reflexivity.
+  Qed.
+
+  Lemma all_pos_forallb nx : all_pos nx -> forallb (fun k => (0 <? k)%Z) nx = true.
+  Proof. intros H; induction H as [|n ns Hn _ IH]; cbn [forallb]; auto. rewrite IH. destruct (Z.ltb_spec 0 n); auto; lia. Qed.
+
+  (* the constructor from a file: sizes, lower boundaries, widths, periodicity flags and data all come
+     from the file; the upper boundaries are not in the file and are left empty *)
+  Lemma multicol_file_roundtrip (g : grid R) : grid_wf g -> geom_wf g ->
+    grid_from_multicol Rops (gr_mult g) (write_multicol Rops g) =
+    Some (mkGrid (gr_mult g) (gr_nx g) (gr_lower g) [] (gr_width g) (gr_per g) (gr_data g), []).
+  Proof.
+    intros Hwf Hg. pose proof Hwf as (Hm & Hp & Hne & Hl). pose proof Hg as (Hg1 & Hg2 & Hg3).
+    unfold grid_from_multicol. rewrite strip_write_multicol.
+    assert (Hnd : (0 < gnd g)%nat) by (unfold gnd; destruct (gr_nx g); [congruence | cbn; lia]).
+    destruct (Z.ltb_spec 0 (Z.of_nat (gnd g))) as [_|]; [|lia].
+    rewrite Nat2Z.id, read_header_ok by (unfold gnd in *; lia).
+    destruct (hv_proj (gr_lower g) (gr_width g) (gr_nx g) (gr_per g)) as (A & B & C & D); try (unfold gnd in *; lia).
+    rewrite A, B, C, D, (all_pos_forallb _ Hp).
+    destruct (Z.eqb_spec (gr_mult g) 0) as [|_]; [lia|].
+    destruct (Z.ltb_spec 0 (gr_mult g)) as [_|]; [|lia]. cbn [andb].
+    rewrite multicol_roundtrip; auto.
+    - repeat split; auto; cbn [gr_mult gr_nx gr_data]. unfold zeros. apply repeat_length.
+    - repeat split; auto.
+  Qed.
+
+  Lemma firstn_app_ge {A} (l1 l2 : list A) n : (length l1 <= n)%nat ->
+    firstn n (l1 ++ l2) = l1 ++ firstn (n - length l1) l2.
+  Proof. intros H. rewrite firstn_app, firstn_all2 by lia. reflexivity. Qed.
+
+  (* a truncated multicolumn file (any strict prefix of the written token stream) is never accepted *)
+  Lemma multicol_truncated_rejected add (g g0 : grid R) n :
+    grid_wf g -> geom_wf g -> grid_wf g0 -> same_geom g0 g ->
+    (n < length (strip (write_multicol Rops g)))%nat ->
+    read_multicol_s Rops add g0 (firstn n (strip (write_multicol Rops g))) = None.
+  Proof.
+    intros Hwf Hg Hwf0 Hs Hn. pose proof Hg as (Hg1 & Hg2 & Hg3). pose proof Hs as ((Hsm & Hsn) & Hsl & Hsw).
+    rewrite strip_write_multicol in *.
+    assert (Hnd : gnd g0 = gnd g) by (unfold gnd; rewrite Hsn; reflexivity).
+    set (H := header_toks (gr_lower g) (gr_width g) (gr_nx g) (gr_per g)) in *.
+    assert (HH : length H = (5 * gnd g)%nat) by (apply header_toks_length; unfold gnd in *; lia).
+    destruct n as [|[|n]]; [reflexivity | reflexivity |].
+    cbn [firstn read_multicol_s]. rewrite Hnd, Z.eqb_refl.
+    destruct (read_header Rops (gnd g) (firstn n (H ++ multicol_rows Rops g))) as [[h s2]|] eqn:E; [|reflexivity].
+    pose proof (read_header_len Rops _ _ _ _ E) as [El _].
+    cbn [length] in Hn. rewrite app_length in Hn.
+    assert (Hge : (length H <= n)%nat).
+    { rewrite firstn_length in El. lia. }
+    rewrite firstn_app_ge in E by auto. unfold H in E.
+    rewrite read_header_ok in E by (unfold gnd in *; lia). injection E as <- <-.
+    rewrite Hsl, Hsw, Hsn, need_remap_self.
+    destruct (read_points Rops (gnd g) (gmult g0) add (gr_mult g0) (gr_nx g) (all_indices (gr_nx g))
+                (firstn (n - length (header_toks (gr_lower g) (gr_width g) (gr_nx g) (gr_per g))) (multicol_rows Rops g))
+                (gr_data g0)) as [[d' r]|] eqn:E2; [|reflexivity].
+    exfalso. apply read_points_lead in E2. destruct E2 as [_ E2].
+    rewrite firstn_length in E2. fold H in E2.
+    (* the rows of the written file have exactly npoints * (nd + mult) tokens *)
+    destruct (read_rows_ok Rops add g g0 [] Hwf Hg Hwf0 Hs) as (data' & R1 & _ & _).
+    apply read_points_lead in R1. destruct R1 as [_ R1]. rewrite app_nil_r in R1. cbn [length] in R1.
+    rewrite Hnd, Hsn in R1. lia.
+  Qed.
+End MulticolR.
